@@ -14,7 +14,7 @@ META = {
     'functions': ['xrspatial.proximity.proximity', 'xrspatial.proximity.allocation', 'xrspatial.proximity.direction', 'xrspatial.proximity._process',
                   'xrspatial.proximity._process_proximity_line', 'xrspatial.proximity._calc_direction', 'xrspatial.proximity._distance'],
     'bounds': {'quick': 'rasters 3x3 (every one of the 2^9 target layouts, as solver-decided paths over symbolic cell values incl. NaN) for EUCLIDEAN (ascending and descending, '
-                        'non-square coordinates) and MANHATTAN, finite and infinite max_distance; 2x3 for GREAT_CIRCLE and for explicit symbolic target_values; int32 / uint8 rasters 2x3',
+                        'non-square coordinates) and MANHATTAN, finite and infinite max_distance; 2x3 for GREAT_CIRCLE and for explicit symbolic target_values; int32 / uint8 rasters 2x3; NOT symbolic: 5x6 rasters with two concrete targets at every pair of positions (435 layouts; claims: never below the true nearest distance, value = distance to the target that allocation and direction name)',
                'thorough': 'plus 3x4 and 2x5 (4096 / 1024 layouts) and 4x4 single-target layouts'},
     'stubs': ['numba.jit = identity; the closure _process_numpy is re-created per call exactly as in production'],
     'outside': ['grids larger than the bound (where the 4-sweep heuristic is known to be inexact; there only "never underestimated, names a real target" is the property)',
@@ -50,6 +50,11 @@ def jobs(tier, seed):
     add('target-values-1x3-float32-stores', shape=[1, 3], targets='values', f32=True)
     add('euclid-2x3-int32', shape=[2, 3], dtype='int32')
     add('target-values-2x3-uint8-maxd', shape=[2, 3], targets='values', maxd=1.5, dtype='uint8')
+    # 5x6 with two targets at every pair of positions (435 layouts, 5 per job, alternating square ascending and non-square descending coordinates): two concrete distinct target values, everything else 0
+    allc = [(y, x) for y in range(5) for x in range(6)]
+    pairs56 = [(a, b) for i, a in enumerate(allc) for b in allc[:i]]
+    for i in range(0, len(pairs56), 5):
+        add('two-targets-5x6-%02d' % (i // 5), shape=[5, 6], grid='asc' if (i // 5) % 2 else 'desc-nonsquare', exact=False, pairs=[[list(a), list(b)] for a, b in pairs56[i:i + 5]])
     add('single-row-1x4', shape=[1, 4])
     add('single-col-4x1', shape=[4, 1])
     if tier != 'quick':
@@ -99,7 +104,20 @@ def body(ctx, job):
     ys = symnp.asarray(ysl, 'float64')
     xs = symnp.asarray(xsl, 'float64')
     dt = job.get('dtype', 'float64')
+    if job.get('pairs'):
+        # concrete, distinct target values: these jobs enumerate layouts (which of two far-apart targets wins which cell), nothing is symbolic
+        v1, v2 = 3.0, 7.0
+        for a, b in job['pairs']:
+            data = symnp.zeros((h, w), 'float64')
+            data[tuple(a)] = v1
+            data[tuple(b)] = v2
+            _run(ctx, job, data, ys, xs, ysl, xsl, g, h, w)
+        return
     data = ctx.array('d', (h, w), dt, nan=True, **({'lo': 0 if dt[0] == 'u' else -1, 'hi': 2} if dt[0] in 'iu' else {}))
+    _run(ctx, job, data, ys, xs, ysl, xsl, g, h, w)
+
+
+def _run(ctx, job, data, ys, xs, ysl, xsl, g, h, w):
     agg = raster(data, ys=ys, xs=xs, name='r', attrs={'res': (abs(g['dx']), abs(g['dy']))})
     maxd = job['maxd']
     metric = job['metric']
@@ -143,8 +161,14 @@ def body(ctx, job):
             continue    # target exactly at max_distance: tie outside the claim
         nearest = min(within.values())
         tol = 1e-5 * (1 + nearest)
-        ok = (p == p) and abs(p - nearest) <= tol
-        ctx.check('proximity-is-exact-nearest-distance', ok, info=dict(info, cell=list(c), got=p, want=nearest))
+        if job.get('exact', True):
+            ok = (p == p) and abs(p - nearest) <= tol
+            ctx.check('proximity-is-exact-nearest-distance', ok, info=dict(info, cell=list(c), got=p, want=nearest))
+        else:
+            # beyond the exhaustively enumerated small grids the four-sweep propagation may settle on a farther target: the property then only
+            # demands "never below the true nearest distance" and that the value is the distance to the target the other two outputs name
+            ok = (p == p) and p >= nearest - tol
+            ctx.check('proximity-never-below-nearest-distance', ok, info=dict(info, cell=list(c), got=p, nearest=nearest))
         ctx.check('proximity-zero-iff-target', (p == 0) == is_t[c], info=dict(info, cell=list(c)))
         ctx.check('proximity-at-most-max-distance', p != p or p <= lim * (1 + 1e-6))
         if not ok:
